@@ -4,6 +4,8 @@ import SlugModel.Ignore
 import SlugModel.Unpack
 import SlugModel.Builder
 import SlugModel.Remote
+import SlugModel.Pack
+import SlugModel.Bundle
 /-!
 Line-protocol driver: one request per line on stdin, one answer per line on stdout.
 Fields are separated by single spaces; every string is `x<hex of UTF-8 bytes>`.
@@ -360,6 +362,113 @@ def handleRemote (toks : List String) : String :=
     | _, _, _ => "not-utf8"
   | _ => "bad-op"
 
+-- ---------- pack ----------
+
+def encEntry (e : Entry) : String :=
+  s!"{encStr e.name}:{e.typ.toNat}:{e.mode}:{e.mtime}:{encStr e.link}:{encStr e.body}"
+
+def encPResult : PResult → String
+  | .ok => "ok"
+  | .illegal => "illegal"
+  | .ioerr => "io"
+  | .diverged => "diverged"
+
+/-- `pack <cwd> <src> <deref> <ignore> <allow> <fs>` → `<class> <entries> <meta files> <meta size>` -/
+def handlePack (toks : List String) : String :=
+  match toks with
+  | [cwd, src, deref, ign, allow, fsenc] =>
+    match decStr cwd, decStr src, decStrList allow, decFS fsenc with
+    | some cwd, some src, some allow, some fs =>
+      let (st, r) := pack fs cwd { dereference := deref = "1", applyIgnore := ign = "1", allow := allow } src
+      match r with
+      | .ok =>
+        "ok " ++ encList (st.entries.map encEntry) ++ " " ++ encList (st.pmeta.files.map encStr) ++ " " ++ toString st.pmeta.size
+      | other => encPResult other
+    | _, _, _, _ => "not-utf8"
+  | _ => "bad-op"
+
+-- ---------- bundle ----------
+
+def decMPkg (s : String) : Option MPkg :=
+  match s.splitOn "~" with
+  | [src, dir, c, m] => do pure { source := ← decStr src, localDir := ← decStr dir, commit := ← decStr c, msg := ← decStr m }
+  | _ => none
+
+def decMVer (s : String) : Option MVer :=
+  match s.splitOn ":" with
+  | [v, src, dep, reason, link] => do
+    pure { ver := ← decStr v, source := ← decStr src, deprecated := dep = "1", reason := ← decStr reason, link := ← decStr link }
+  | _ => none
+
+def decMReg (s : String) : Option MReg :=
+  match s.splitOn "~" with
+  | [src, vs] => do pure { source := ← decStr src, versions := ← (splitNE vs "/").mapM decMVer }
+  | _ => none
+
+def decManifest (s : String) : Option Manifest :=
+  match s.splitOn ";" with
+  | [f, ps, rs] => do
+    pure { format := ← f.toNat?, packages := ← (splitNE ps ",").mapM decMPkg, registry := ← (splitNE rs ",").mapM decMReg }
+  | _ => none
+
+structure OracleTabs where
+  p : List (Str × Option Str) := []
+  g : List (Str × Option Str) := []
+  v : List (Str × Option Str) := []
+  s : List (Str × Option (Str × Str)) := []
+
+def decOptKey (k : String) : Option (Option Str) := if k = "ERR" then some none else (decStr k).map some
+
+def decOracleItem (acc : OracleTabs) (item : String) : Option OracleTabs :=
+  match item.splitOn "~" with
+  | ["p", a, k] => do pure { acc with p := acc.p ++ [(← decStr a, ← decOptKey k)] }
+  | ["g", a, k] => do pure { acc with g := acc.g ++ [(← decStr a, ← decOptKey k)] }
+  | ["v", a, k] => do pure { acc with v := acc.v ++ [(← decStr a, ← decOptKey k)] }
+  | ["s", a, "ERR"] => do pure { acc with s := acc.s ++ [(← decStr a, none)] }
+  | ["s", a, pk, sub] => do pure { acc with s := acc.s ++ [(← decStr a, some (← decStr pk, ← decStr sub))] }
+  | _ => none
+
+def mkOracle (t : OracleTabs) : BundleOracle :=
+  { parsePkg := fun a => (assoc t.p a).join, parseRegPkg := fun a => (assoc t.g a).join,
+    parseVer := fun a => (assoc t.v a).join, parseRemoteSrc := fun a => (assoc t.s a).join }
+
+def answerQuery (b : Bundle) (q : String) : String :=
+  match q.splitOn "~" with
+  | ["lr", pk, sub] =>
+    match decStr pk, decStr sub with
+    | some pk, some sub => encOpt (localPathForRemote b pk sub)
+    | _, _ => "not-utf8"
+  | ["lg", reg, ver, sub] =>
+    match decStr reg, decStr ver, decStr sub with
+    | some reg, some ver, some sub => encOpt (localPathForRegistry b reg ver sub)
+    | _, _, _ => "not-utf8"
+  | ["sp", p] =>
+    match decStr p with
+    | some p =>
+      match splitLocalPath b p with
+      | none => "err"
+      | some (d, sub) => encStr d ++ "~" ++ encStr sub
+    | none => "not-utf8"
+  | _ => "bad-op"
+
+/-- `bundle <root> <manifest> <oracle> <queries>` -/
+def handleBundle (toks : List String) : String :=
+  match toks with
+  | [root, man, orc, qs] =>
+    match decStr root, decManifest man, (splitNE orc ",").foldlM decOracleItem {} with
+    | some root, some m, some tabs =>
+      match openDir (mkOracle tabs) root m with
+      | none => "err"
+      | some b =>
+        let dirs := sortStrs (b.pkgDirs.map fun (k, d) => encStr k ++ ":" ++ encStr d)
+        let metas := sortStrs (b.pkgMeta.map fun (k, m) => encStr k ++ ":" ++ encStr m.1 ++ ":" ++ encStr m.2)
+        let srcs := sortStrs (b.regSources.map fun ((r, v), (pk, sub)) => encStr r ++ ":" ++ encStr v ++ ":" ++ encStr pk ++ ":" ++ encStr sub)
+        let deps := sortStrs (b.regDeprec.map fun ((r, v), d) => encStr r ++ ":" ++ encStr v ++ ":" ++ encOptPair d)
+        "ok " ++ encList dirs ++ " " ++ encList metas ++ " " ++ encList srcs ++ " " ++ encList deps ++ " " ++
+          String.intercalate "|" ((splitNE qs ",").map (answerQuery b))
+    | _, _, _ => "not-utf8"
+  | _ => "bad-op"
+
 def handle (line : String) : String :=
   match (line.trimAscii.toString.splitOn " ") with
   | "paths" :: fn :: rest =>
@@ -374,6 +483,8 @@ def handle (line : String) : String :=
   | "unpack" :: rest => handleUnpack rest
   | "builder" :: rest => handleBuilder rest
   | "remote" :: rest => handleRemote rest
+  | "pack" :: rest => handlePack rest
+  | "bundle" :: rest => handleBundle rest
   | "ignore" :: rest =>
     match rest.mapM decStr with
     | none => "not-utf8"
